@@ -10,6 +10,7 @@ import (
 	"github.com/tikv/pd/pkg/etcdutil"
 	"go.etcd.io/etcd/clientv3"
 	"go.etcd.io/etcd/embed"
+	"go.uber.org/zap"
 
 	"pdverif/internal/gate"
 )
@@ -47,7 +48,11 @@ func (e *Etcd) Stop() {
 
 // Client returns a plain client.
 func (e *Etcd) Client() (*clientv3.Client, error) {
-	return clientv3.New(clientv3.Config{Endpoints: []string{e.EP}, DialTimeout: 5 * time.Second})
+	lc := zap.NewProductionConfig()
+	lc.Level = zap.NewAtomicLevelAt(zap.FatalLevel)
+	lc.OutputPaths = []string{"/dev/null"}
+	lc.ErrorOutputPaths = []string{"/dev/null"}
+	return clientv3.New(clientv3.Config{Endpoints: []string{e.EP}, DialTimeout: 5 * time.Second, LogConfig: &lc})
 }
 
 // GatedClient returns a client whose KV field goes through s. Note that pingcap/pd reads through
@@ -77,6 +82,8 @@ type KV struct {
 	S *gate.Sched
 	// OnTxn, if set, is called after every transaction (under no lock).
 	OnTxn func(TxnInfo)
+	// Fallback, if set, names the process that transactions of unregistered goroutines belong to.
+	Fallback func() *gate.Proc
 }
 
 // Put gates a put.
@@ -119,7 +126,7 @@ func (t *txn) Then(ops ...clientv3.Op) clientv3.Txn {
 }
 
 func (t *txn) Commit() (*clientv3.TxnResponse, error) {
-	d := t.k.S.At("txn", t.key, t.val)
+	d := t.k.S.AtFor(t.k.Fallback, "txn", t.key, t.val)
 	info := TxnInfo{Key: t.key, Val: t.val, Decision: d}
 	if d == gate.FailBefore {
 		info.Err = gate.ErrInjected
